@@ -29,7 +29,12 @@ Record pubT := mkP { po : N; pe : N; pf : bool }.
 Inductive tok := TPub (p : pubT) | TJoin | TLeave
   | TMark.   (* the channel medium's insufficient-state marker: Publication{Offset: MaxUint64}, empty epoch *)
 
-Inductive variant := VClient | VServer.
+Inductive variant := VClient | VServer
+  | VConnect.   (* connect-time server-side subscription (ConnectReply.Subscriptions): subscribeCmd
+                   with serverSide=true run by connectCmd; the subscription result travels in the
+                   connect reply, which is written BEFORE the finalize (commit) and the buffer
+                   release -- the same order as the client command path -- while insufficient
+                   state is handled the server-side way (disconnect) *)
 
 (* Subscription parameters (fixed for a run).  [c_fix_anchor] / [c_fix_srvpubs]
    select the PATCHED behaviour proposed for the two C01 findings; the code as it
@@ -258,7 +263,9 @@ Definition sub_quiet (s : st) : bool :=
   match pc s with SIdle | SDone | SFailed => true | _ => false end.
 Definition sub_finished (s : st) : bool :=
   match pc s with SDone | SFailed => true | _ => false end.
-Definition is_server (c : cfg) : bool := match c_var c with VServer => true | VClient => false end.
+Definition is_server (c : cfg) : bool := match c_var c with VServer => true | _ => false end.
+(* flagServerSide: insufficient state closes the connection instead of unsubscribing *)
+Definition insuff_disc (c : cfg) : bool := match c_var c with VClient => false | _ => true end.
 
 (* writePublicationUpdatePosition *)
 Definition check_pub (c : cfg) (s : st) (p : pubT) (lag : bool) : st :=
@@ -410,8 +417,8 @@ Definition step (c : cfg) (s : st) (l : label) : option st :=
       | _ => None
       end
   | LWriteReply =>
-      match pc s, c_var c with
-      | SMerged r, VClient =>
+      match pc s, is_server c with
+      | SMerged r, false =>
           Some (set_pc (emit s (FSubReply (r_recovered r) (r_pubs r) (r_off r) (r_ep r))) (SReplied r))
       | _, _ => None
       end
@@ -463,7 +470,7 @@ Definition step (c : cfg) (s : st) (l : label) : option st :=
       match pc s with
       | SFailDisc =>
           match c_var c with
-          | VClient => (* writeDisconnectOrErrorFlush -> close(DisconnectInsufficientState) *)
+          | VClient | VConnect => (* the command (subscribe / connect) ends with close(DisconnectInsufficientState) *)
               Some (set_pc (set_closed (set_cw (emits s (cw s ++ [FDisconnect code_disc_insufficient])) []) true false) SFailed)
           | VServer => Some (set_pc s SFailed)      (* error returned to the caller, no frame *)
           end
@@ -477,7 +484,7 @@ Definition step (c : cfg) (s : st) (l : label) : option st :=
           match pending s with
           | O => None
           | S n =>
-              if is_server c then None else
+              if insuff_disc c then None else
               match ch s with
               | Reserved => None
               | Sub _ _ => Some (set_up (set_ch (set_cw (set_pending s n) (if c_fix_delw c then cw s else [])) NoCh (g_pos s)) (UHub UInsuff))
@@ -508,7 +515,7 @@ Definition step (c : cfg) (s : st) (l : label) : option st :=
       match pending s with
       | O => None
       | S n =>
-          if negb (is_server c) then None else
+          if negb (insuff_disc c) then None else
           if closed s then Some (set_pending s n)
           else Some (set_closed (set_cw (emits (set_pending s n) (cw s ++ [FDisconnect code_disc_insufficient])) []) true true)
       end
